@@ -44,7 +44,7 @@ def SameUpToScratch {α : Type} (r₁ r₂ : Except PyErr (α × Session)) : Pro
   | _, _ => False
 
 theorem SameUpToScratch.of_agree {α : Type} {r₁ r₂ r₃ : Except PyErr (α × Session)}
-    (h1 : AgreeP true r₁ r₂) (h2 : AgreeP false r₂ r₃) : SameUpToScratch r₁ r₃ := by
+    (h1 : AgreeP .saved r₁ r₂) (h2 : AgreeP .ids r₂ r₃) : SameUpToScratch r₁ r₃ := by
   cases r₁ with
   | error e =>
     cases r₂ with
@@ -77,8 +77,8 @@ theorem SameUpToScratch.of_agree {α : Type} {r₁ r₂ r₃ : Except PyErr (α 
 theorem render_ignores_scratch_registers (env : Env) (fuel : Nat) (src : Str) (o : RenderOptions) (s : Session)
     (q : List Fragment) (l : List Str) :
     SameUpToScratch ((apiRender env fuel src o).run s) ((apiRender env fuel src o).run { s with saved := q, listIds := l }) := by
-  have h1 := apiRender_nip (b := true) env fuel src o s q []
-  have h2 := apiRender_nip (b := false) env fuel src o (pert true q [] s) [] l
+  have h1 := apiRender_nip (b := .saved) env fuel src o s q []
+  have h2 := apiRender_nip (b := .ids) env fuel src o (pert .saved q [] s) [] l
   exact SameUpToScratch.of_agree h1 h2
 
 /-- **C05, without a hypothesis on the scratch registers.**  With reset requested, the call returns the same html (or
@@ -90,6 +90,100 @@ theorem reset_render_depends_on_nothing (env : Env) (fuel : Nat) (src : Str) (o 
   have h := render_ignores_scratch_registers env fuel src o s₁ s₂.saved s₂.listIds
   rw [reset_render_is_pure env fuel src o { s₁ with saved := s₂.saved, listIds := s₂.listIds } s₂ hreset hl rfl rfl] at h
   exact h
+
+/-- the session without its three registers of history: placeholder queue, open list ids, message log -/
+def erase3 (s : Session) : Session := { s with saved := [], listIds := [], log := [] }
+
+/-- same exception, or same html and final sessions that agree outside the three registers -/
+def Same3 {α : Type} (r₁ r₂ : Except PyErr (α × Session)) : Prop :=
+  match r₁, r₂ with
+  | .ok (a, t1), .ok (a', t2) => a = a' ∧ erase3 t1 = erase3 t2
+  | .error e, .error e' => e = e'
+  | _, _ => False
+
+theorem Same3.of_agree {α : Type} {b : Reg} {r₁ r₂ : Except PyErr (α × Session)} (h : AgreeP b r₁ r₂) : Same3 r₁ r₂ := by
+  cases r₁ with
+  | error e => cases r₂ with
+    | error e' => exact h
+    | ok _ => exact h.elim
+  | ok x =>
+    obtain ⟨a, t1⟩ := x
+    cases r₂ with
+    | error e' => exact h.elim
+    | ok y =>
+      obtain ⟨a', t2⟩ := y
+      obtain ⟨e1, q, l, e2⟩ := h
+      subst e1 e2
+      exact ⟨rfl, by cases b <;> rfl⟩
+
+theorem Same3.symm {α : Type} {r₁ r₂ : Except PyErr (α × Session)} (h : Same3 r₁ r₂) : Same3 r₂ r₁ := by
+  cases r₁ with
+  | error e => cases r₂ with
+    | error e' => exact Eq.symm (α := PyErr) h
+    | ok _ => exact h.elim
+  | ok x =>
+    obtain ⟨a, t1⟩ := x
+    cases r₂ with
+    | error e' => exact h.elim
+    | ok y => obtain ⟨a', t2⟩ := y; exact ⟨h.1.symm, h.2.symm⟩
+
+theorem Same3.trans {α : Type} {r₁ r₂ r₃ : Except PyErr (α × Session)} (h1 : Same3 r₁ r₂) (h2 : Same3 r₂ r₃) : Same3 r₁ r₃ := by
+  cases r₁ with
+  | error e =>
+    cases r₂ with
+    | error e' => cases r₃ with
+      | error e'' => exact Eq.trans (α := PyErr) h1 h2
+      | ok _ => exact h2.elim
+    | ok _ => exact h1.elim
+  | ok x =>
+    obtain ⟨a, t1⟩ := x
+    cases r₂ with
+    | error e' => exact h1.elim
+    | ok y =>
+      obtain ⟨a', t2⟩ := y
+      cases r₃ with
+      | error e'' => exact h2.elim
+      | ok z => obtain ⟨a'', t3⟩ := z; exact ⟨h1.1.trans h2.1, h1.2.trans h2.2⟩
+
+/-- **What was reported before does not matter either.**  A `render` call from a session and from the same session with
+    any messages already in its log: same html or exception, same final session outside the log. -/
+theorem render_ignores_earlier_messages (env : Env) (fuel : Nat) (src : Str) (o : RenderOptions) (s : Session) (L : List Str) :
+    Same3 ((apiRender env fuel src o).run s) ((apiRender env fuel src o).run { s with log := L ++ s.log }) :=
+  Same3.of_agree (apiRender_nip (b := .log) env fuel src o s [] L)
+
+/-- **C05, with no hypothesis on the sessions at all.**  With reset requested, the call returns the same html (or ends in
+    the same exception) from *any* two sessions, and the final sessions agree in everything but the placeholder queue, the
+    stack of open list ids and the message log - whatever was rendered, defined, configured, left pending or reported
+    before. -/
+theorem reset_render_depends_only_on_source_and_options (env : Env) (fuel : Nat) (src : Str) (o : RenderOptions)
+    (s₁ s₂ : Session) (hreset : o.reset = .bool true ∨ o.reset = .str "true".toList) :
+    Same3 ((apiRender env fuel src o).run s₁) ((apiRender env fuel src o).run s₂) := by
+  have e1 : ({ ({ s₁ with log := [] } : Session) with log := s₁.log ++ [] } : Session) = s₁ := by simp
+  have e2 : ({ ({ s₂ with log := [] } : Session) with log := s₂.log ++ [] } : Session) = s₂ := by simp
+  have h1 := render_ignores_earlier_messages env fuel src o { s₁ with log := [] } s₁.log
+  have h2 := render_ignores_earlier_messages env fuel src o { s₂ with log := [] } s₂.log
+  rw [e1] at h1
+  rw [e2] at h2
+  have hm := reset_render_depends_on_nothing env fuel src o { s₁ with log := [] } { s₂ with log := [] } hreset rfl
+  have hm3 : Same3 ((apiRender env fuel src o).run { s₁ with log := [] }) ((apiRender env fuel src o).run { s₂ with log := [] }) := by
+    revert hm
+    generalize (apiRender env fuel src o).run { s₁ with log := [] } = r₁
+    generalize (apiRender env fuel src o).run { s₂ with log := [] } = r₂
+    intro hm
+    cases r₁ with
+    | error e => cases r₂ with
+      | error e' => exact hm
+      | ok _ => exact hm.elim
+    | ok x =>
+      obtain ⟨a, t1⟩ := x
+      cases r₂ with
+      | error e' => exact hm.elim
+      | ok y =>
+        obtain ⟨a', t2⟩ := y
+        obtain ⟨ea, q, l, et⟩ := hm
+        subst ea et
+        exact ⟨rfl, rfl⟩
+  exact (h1.symm.trans hm3).trans h2
 
 /-- Non-vacuity of the perturbation: a stale stack of open list ids and a stale placeholder queue, then a list whose
     markers are on the stale stack. -/
